@@ -13,6 +13,7 @@ import Minicbor.Drv.Token
 import Minicbor.Drv.Balanced
 import Minicbor.Drv.Frame
 import Minicbor.Drv.Serde
+import Minicbor.Drv.Attrs
 
 open Minicbor Minicbor.Drv
 
@@ -45,6 +46,8 @@ def dispatch (line : String) : String :=
   | "dcompat" :: w => Dv.dcompatOp w
   | "dproject" :: w => Dv.dprojectOp w
   | "daccept" :: w => Dv.dacceptOp w
+  | "astruct" :: w => At.astructOp w
+  | "aenum" :: w => At.aenumOp w
   | "ser" :: w => serdeOp ("ser" :: w) | "de" :: w => serdeOp ("de" :: w) | "rt" :: w => serdeOp ("rt" :: w) | "iser" :: w => serdeOp ("iser" :: w) | "ide" :: w => serdeOp ("ide" :: w)
   | _ => "bad-op"
 
